@@ -613,6 +613,15 @@ def _step(w, ev):
             s.status = 'closed'
             return StepResult('close:ok', True, [], obs)
         if w.nsgone and res[0] == 'cim':
+            # refusing is tolerated once the namespace is gone, but then the refusal itself must have
+            # released the context: a context that neither Pull nor Close can release stays open on
+            # the server for ever
+            if s.ctx is not None and s.ctx[0] in conn._mainprovider.enumeration_contexts:
+                problems.append(Problem(dict(check='leak', op='CloseEnumeration', moc='-',
+                                             what='context-cannot-be-released-after-namespace-removal'),
+                                        'the context is released', describe(res) + ' and the context is still in the table'))
+                return StepResult('close:VIOLATION', True, problems, obs)
+            s.status = 'closed'
             return StepResult('close:refused-namespace-gone', True, [], obs)
         problems.append(Problem(dict(sig, what=('refused:' + codename(res[1])) if res[0] == 'cim'
                                      else 'raised:' + res[1]),
